@@ -294,6 +294,7 @@ package circuitbreaker
 //@ ghost var gTryN Int
 //@ ghost var gTryRecv (Array Int Int)
 //@ ghost var gTryRes (Array Int Bool)
+//@ ghost var gLastTry (Array Int Bool)
 //@ ghost var gDoneN Int
 //@ ghost var gDoneRecv (Array Int Int)
 //@ ghost var gDoneRt (Array Int Int)
@@ -301,8 +302,11 @@ package circuitbreaker
 
 //@ iface CircuitBreaker.TryPass(ctx) r
 //@   ensures gTryN == old(gTryN) + 1 && gTryRecv == upd(old(gTryRecv), old(gTryN), dynptr(this)) && gTryRes == upd(old(gTryRes), old(gTryN), r)
-//@   modifies gTryN, gTryRecv, gTryRes, all(circuitBreakerBase.nextRetryTimestampMs), all(circuitBreakerBase.curProbeNumber), cells(State), gToHalf, gToHalfPrev
+//@   ensures gLastTry == upd(old(gLastTry), dynptr(this), r)
+//@   modifies gLastTry, gTryN, gTryRecv, gTryRes, all(circuitBreakerBase.nextRetryTimestampMs), all(circuitBreakerBase.curProbeNumber), cells(State), gToHalf, gToHalfPrev
 //@ iface CircuitBreaker.BoundRule() r
+//@   pure
+//@ iface CircuitBreaker.CurrentState() r
 //@   pure
 //@ iface CircuitBreaker.OnRequestComplete(rtt, err)
 //@   ensures gDoneN == old(gDoneN) + 1 && gDoneRecv == upd(old(gDoneRecv), old(gDoneN), dynptr(this)) && gDoneRt == upd(old(gDoneRt), old(gDoneN), rtt) && gDoneErr == upd(old(gDoneErr), old(gDoneN), err)
@@ -315,7 +319,7 @@ package circuitbreaker
 //@   let n0 = gTryN
 //@   ensures[in-order] forall j Int :: n0 <= j && j < gTryN ==> sel(gTryRecv, j) == dynptr(cbs[j - n0])
 //@   ensures[all-passed] passed ==> gTryN == n0 + len(cbs) && rule == nil && (forall j Int :: n0 <= j && j < gTryN ==> sel(gTryRes, j))
-//@   modifies gTryN, gTryRecv, gTryRes, all(circuitBreakerBase.nextRetryTimestampMs), all(circuitBreakerBase.curProbeNumber), cells(State), gToHalf, gToHalfPrev
+//@   modifies gLastTry, gTryN, gTryRecv, gTryRes, all(circuitBreakerBase.nextRetryTimestampMs), all(circuitBreakerBase.curProbeNumber), cells(State), gToHalf, gToHalfPrev
 //@   ensures[first-reject] !passed ==> gTryN > n0 && gTryN <= n0 + len(cbs) && !sel(gTryRes, gTryN - 1) && (forall j Int :: n0 <= j && j < gTryN - 1 ==> sel(gTryRes, j)) && rule == cbs[gTryN - 1 - n0].BoundRule()
 //@   loop 1:
 //@     invariant[count] gTryN == n0 + #i
